@@ -539,4 +539,12 @@ theorem control_skeletons_are_source :
     Gen.C10.keyBuilderToFunctionCtl = ["return:func(args[]expressions.KeyBuilderStage)(expressions.KeyBuilderStage,error){ctxPool:=slicepool.NewObjectPoolEx(5,func()*lazySubContext{return&lazySubContext{args:args,}})returnfunc(kbcexpressions.KeyBuilderContext)string{subCtx:=ctxPool.Get()deferctxPool.Return(subCtx)subCtx.sub=kbcreturnstage.BuildKey(subCtx)},nil}"] := by
   exact ⟨rfl, rfl, rfl, rfl, rfl, rfl, rfl⟩
 
+/-- **The funcs files are loaded after every global output switch is in force** (main.go, `app.Before`): `--nocolor` /
+    `--color`, `--noformat`, `--notrim`, `--nounicode`, `--noload` are applied first, then the `--funcs` /
+    `RARE_FUNC_FILES` definitions are compiled (with the optimiser folding their constant sub-expressions) – so a
+    constant `{hi 1234567}`, `{color red x}`, `{load f}` inside a funcs-file body is folded under the same switches as the
+    same text written inline, which the command compiles later (seeded change `C10-funcs-before-switches`). -/
+theorem before_hook_switches_then_funcs :
+    Gen.C10.beforeHookCtl = ["if:c.Bool(\"nocolor\"){", "stmt:color.Enabled=false", "}else{", "if:c.Bool(\"color\"){", "stmt:color.Enabled=true", "}", "}", "if:c.Bool(\"noformat\"){", "stmt:humanize.Enabled=false", "}", "if:c.Bool(\"notrim\"){", "stmt:multiterm.AutoTrim=false", "}", "if:c.Bool(\"nounicode\"){", "stmt:termunicode.UnicodeEnabled=false", "}", "if:c.Bool(\"noload\"){", "stmt:stdlib.DisableLoad=true", "}", "if:funcs:=c.StringSlice(\"funcs\");len(funcs)>0{", "stmt:cmplr:=funclib.NewKeyBuilder()", "range:funcs{", "do:funclib.TryAddFunctions(funcfile.LoadDefinitionsFile(cmplr,ff))", "}", "}", "return:nil"] := rfl
+
 end Rare.C10
